@@ -12,7 +12,8 @@
 (* An outcome event is what the CALLER of the generated method saw for one *)
 (* served status under one transport:                                      *)
 (*   [status, transport : "bundled" | "pass", body : the kind of body the  *)
-(*    server sent (DispatchCore!Bodies), kind : "return" | "raise" |       *)
+(*    server sent (DispatchCore!Bodies), hdr : the header set of the       *)
+(*    answer (DispatchCore!HeaderSets), kind : "return" | "raise" |        *)
 (*    "items", mro : Seq(class name), mods : Seq(module of that class),    *)
 (*    exc : type name, status_attr : Nat (0 = no int .status_code),        *)
 (*    has_response : BOOLEAN (.response is an httpx.Response),             *)
@@ -76,8 +77,8 @@ Step ==
          e  == t.ev[l]
          o  == Obs(t, e)
          m  == ModelOutcome("as_is", d, t.first, e.transport, e.status, e.body)
-     IN  /\ fails'  = Add(fails, Failures(d, e.transport, e.status, e.body, o), e.status, e.body)
-         /\ mfails' = Add(mfails, Failures(d, e.transport, e.status, e.body, m), e.status, e.body)
+     IN  /\ fails'  = Add(fails, Failures(d, e.transport, e.status, e.body, e.hdr, o), e.status, e.body)
+         /\ mfails' = Add(mfails, Failures(d, e.transport, e.status, e.body, e.hdr, m), e.status, e.body)
          /\ drift'  = IF Project(o) = Project(m) THEN drift
                       ELSE IF drift.n = 0 THEN [n |-> 1, status |-> e.status, transport |-> e.transport, body |-> e.body]
                       ELSE [drift EXCEPT !.n = @ + 1]
@@ -98,7 +99,7 @@ Fin ==
      IN PrintT("VERDICT " \o ToJson([
             id         |-> t.id,
             wellformed |-> WellFormed(d) /\ t.first \in d /\ t.mode \in ToSet(Modes)
-                           /\ \A i \in 1..Len(t.ev) : t.ev[i].status \in 100..599 /\ t.ev[i].transport \in {"bundled", "pass"} /\ t.ev[i].body \in Bodies,
+                           /\ \A i \in 1..Len(t.ev) : t.ev[i].status \in 100..599 /\ t.ev[i].transport \in {"bundled", "pass"} /\ t.ev[i].body \in Bodies /\ t.ev[i].hdr \in HeaderSets,
             importable_model |-> Importable("as_is", d),
             primary_model    |-> Primary(d, t.first),
             fails       |-> AsSeq(fails),
